@@ -187,7 +187,9 @@ class Comparer(object):
             if type(a) is not type(b):
                 self.mismatch(name, 'list vs tuple')
                 return
-            if isinstance(a, list):
+            if isinstance(a, list) and not (a and all(isinstance(x, str) for x in a) and all(isinstance(x, str) for x in b)):
+                # (lists of type labels are compared by value: they are never mutated, A7, and the library itself
+                #  shares one list between a System, its tables and its MatrixArrays)
                 ka = id(a)
                 if ka in self.pymap:
                     if self.pymap[ka] != id(b):
@@ -479,7 +481,6 @@ def run_path(prog, registry, contract, body_q, case_build, prefix, shared, modul
 
     res = PathResult()
     res.outA, res.outB = outA, outB
-    res.assumptions = list(stA.facts) + list(stA.pc)
     res.used_specs = set(ipA.used_specs) | set(ipB.used_specs)
     res.inlined = set(ipA.inlined) | set(ipB.inlined)
     cmp = Comparer(stA, stB, ntok0, noid0, names)
@@ -512,6 +513,9 @@ def run_path(prog, registry, contract, body_q, case_build, prefix, shared, modul
         for nm, pc, c in stA.call_obligations + stB.call_obligations:
             cmp.goals.append(('call-site ' + nm, mk_implies(mk_and(*pc) if pc else True, c)))
     res.goals = cmp.goals
+    # snapshot *after* the goals are built: evaluating elements at the generic indices instantiates further facts
+    # (inverse axioms at that wavenumber, sqrt / exp facts of the terms that occur)
+    res.assumptions = list(stA.facts) + list(stA.pc)
     res.desc = '%s / %s' % (outA.kind if outA.kind == 'return' else 'raise ' + outA.value,
                             outB.kind if outB.kind == 'return' else 'raise ' + outB.value)
     return res
